@@ -94,6 +94,9 @@ func (l *listener6) HandleMsg6(buf []byte, oob *ipv6.ControlMessage, peer *net.U
 			log.Errorf("HandleMsg6: Did not receive interface information")
 		}
 	}
+	if verifCapture6(l, d, resp, peer, woob) {
+		return
+	}
 	if _, err := l.WriteTo(resp.ToBytes(), woob, peer); err != nil {
 		log.Printf("MainHandler6: conn.Write to %v failed: %v", peer, err)
 	}
@@ -173,6 +176,9 @@ func (l *listener4) HandleMsg4(buf []byte, oob *ipv4.ControlMessage, _peer net.A
 			}
 		}
 
+		if verifCapture4(l, req, resp, peer, woob, useEthernet) {
+			return
+		}
 		if useEthernet {
 			intf, err := net.InterfaceByIndex(woob.IfIndex)
 			if err != nil {
